@@ -10,6 +10,7 @@ import (
 	"verif/harness/clockx"
 	"verif/harness/crashx"
 	"verif/harness/forge"
+	"verif/harness/hostilex"
 	"verif/harness/identx"
 	"verif/harness/idsx"
 	"verif/harness/page"
@@ -20,32 +21,38 @@ import (
 	"verif/harness/world"
 )
 
-var commands = map[string]func(args []string){
-	"page":                page.Run,
-	"cache":               cachex.Run,
-	"cache-worker":        cachex.Worker,
-	"crash":               crashx.Run,
-	"crash-child":         crashx.Child,
-	"clock":               clockx.Run,
-	"forge":               forge.Run,
-	"forge-worker":        forge.Worker,
-	"ids-vectors":         idsx.Vectors,
-	"ids-trace":           idsx.Trace,
-	"snapshot":            snapx.Run,
-	"snapshot-trace":      snapx.TraceCmd,
-	"query-parse":         queryx.ParseCmd,
-	"query-trace":         queryx.EvalCmd,
-	"query-parse-trace":   queryx.ParseTraceCmd,
-	"ident":               identx.Run,
-	"ident-worker":        identx.Worker,
-	"ident-fields":        identx.FieldsCmd,
-	"ident-fields-worker": identx.FieldsWorker,
-	"remove":              removex.Run,
-	"remove-worker":       removex.Worker,
-	"sig":                 sigx.Run,
-	"sig-worker":          sigx.Worker,
-	"world":               world.RunCmd,
-	"world-worker":        world.WorkerCmd,
+var commands = map[string]func(args []string){}
+
+func init() {
+	commands["page"] = page.Run
+	commands["cache"] = cachex.Run
+	commands["cache-worker"] = cachex.Worker
+	commands["crash"] = crashx.Run
+	commands["crash-child"] = crashx.Child
+	commands["clock"] = clockx.Run
+	commands["forge"] = forge.Run
+	commands["forge-worker"] = forge.Worker
+	commands["ids-vectors"] = idsx.Vectors
+	commands["ids-trace"] = idsx.Trace
+	commands["snapshot"] = snapx.Run
+	commands["snapshot-trace"] = snapx.TraceCmd
+	commands["query-parse"] = queryx.ParseCmd
+	commands["query-trace"] = queryx.EvalCmd
+	commands["query-parse-trace"] = queryx.ParseTraceCmd
+	commands["hostile"] = hostilex.Run
+	commands["hostile-worker"] = hostilex.Worker
+	commands["ident"] = identx.Run
+	commands["ident-worker"] = identx.Worker
+	commands["ident-fields"] = identx.FieldsCmd
+	commands["ident-fields-worker"] = identx.FieldsWorker
+	commands["remove"] = removex.Run
+	commands["remove-worker"] = removex.Worker
+	commands["sig"] = sigx.Run
+	commands["sig-worker"] = sigx.Worker
+	commands["world"] = world.RunCmd
+	commands["world-worker"] = world.WorkerCmd
+	commands["hostile-fuzz"] = hostilex.FuzzCmd
+	commands["hostile-fuzz-worker"] = hostilex.FuzzWorker
 }
 
 func main() {
